@@ -558,9 +558,28 @@ def run(ctx):
     # (1) inside from_xml every parts[K] is on paths where the relationship is not External; (2) at every call site the caller has
     # established, on every path, that the relationship is not Internal or that K (renamed through the arguments) is in parts
     fxx = _expand(prog, fx, local_only=True)
-    fal, fval = P_.aliases(fxx), P_.value_aliases(fxx)
     fparams = [a.arg for a in fx.node.args.args][1:]
-    parts_p = fparams[2] if len(fparams) > 2 else None
+    carrier_mode = len(fparams) < 3
+    if carrier_mode:
+        # base URI and part map travel in one parameter object: its members are read in place (sa/carrier.py)
+        from sa import inline as _inl161
+        from sa.carrier import open_carriers as _open161
+        from sa.types import Types as _Types161
+
+        from checks.c10 import load as _load161
+
+        _M161 = _load161(prog.repo)[2]
+        _inl161.use_types(_Types161(prog, _M161))
+        try:
+            fxx = _expand(prog, fx, depth=3, local_only=True)
+        finally:
+            _inl161.use_types(None)
+        fxx = _open161(prog, fx, fxx)[0]
+        fparams = [a.arg for a in fxx.args.args][1:]
+    fal, fval = P_.aliases(fxx), P_.value_aliases(fxx)
+    # the part map is the parameter that is indexed
+    parts_p = next((p_ for p_ in fparams if any(isinstance(x, ast.Subscript) and dotted(x.value) == p_ for x in ast.walk(fxx))),
+                   fparams[2] if len(fparams) > 2 else None)
     dd = [n for n in ast.walk(fxx) if isinstance(n, ast.Subscript) and isinstance(n.ctx, ast.Load) and dotted(n.value) == parts_p]
 
     def mode_fact(a, internal):
@@ -651,6 +670,13 @@ def run(ctx):
         from sa.desugar import lift_generators as _lift
 
         gx = _lift(_expand(prog, g, local_only=True))
+        if carrier_mode:
+            _inl161.use_types(_Types161(prog, _M161))
+            try:
+                gx = _expand(prog, g, depth=3, local_only=True)
+            finally:
+                _inl161.use_types(None)
+            gx = _lift(_open161(prog, g, gx)[0])
         gal, gval = P_.aliases(gx), P_.value_aliases(gx)
         # call sites that remain calls
         sites = [c for c in ast.walk(gx) if isinstance(c, ast.Call) and (dotted(c.func) or "").endswith("from_xml") and len(c.args) == 3]
